@@ -408,7 +408,10 @@ func (w *blobWriter) Commit(digest ociregistry.Digest) (ociregistry.Descriptor, 
 	w.mu.Lock()
 	defer w.mu.Unlock()
 	if err := w.flush(nil, digest); err != nil {
-		return ociregistry.Descriptor{}, fmt.Errorf("cannot flush data before commit: %w", err)
+		// Note: like the other client methods, return the error as is:
+		// any text added in front of it stops the next server
+		// from recognizing (and trimming) the status and code prefixes.
+		return ociregistry.Descriptor{}, err
 	}
 	return ociregistry.Descriptor{
 		MediaType: "application/octet-stream",
